@@ -37,6 +37,10 @@ TOPOS["toggled"] = [O(x) for x in ("0", "3", "13", "213")]
 # the documentation's second network ("network_b"): every node assigns its own address bytes and then re-assigns the address
 # it already has, which is the documented way to make them take effect
 TOPOS["netb"] = [O(x) for x in ("0", "2", "12", "5")]
+# connected mesh nodes (RF24MeshNoMaster / RF24Mesh objects placed on their addresses the way renew_address() does once an address
+# was granted; master = RF24Mesh with node id 0): their write(address, type, message) is another entry into the same routing
+TOPOS["meshy"] = [O(x) for x in ("0", "1", "11", "5", "21")]
+MESH_TOPOS = {"meshy"}
 NODE_ATTR_SEQ = {"netb": [("address_prefix", bytearray([0xDB])), ("address_suffix", bytearray([0xDD, 0x99, 0xB6, 0xD9, 0x9D, 0x66]))],
                  "toggled": [("fragmentation", False), ("fragmentation", True), ("allow_multicast", False), ("allow_multicast", True),
                              ("multicast_relay", True), ("multicast_relay", False)]}
@@ -56,6 +60,9 @@ def template(topo, cost, frag):
     if t is None:
         ro = ROUTING_ONLY.get(topo, ())
         specs = [{"addr": a, "cls": H.RF24NetworkRoutingOnly if a in ro else H.RF24Network} for a in TOPOS[topo]]
+        if topo in MESH_TOPOS:
+            specs = [{"addr": a, "key": a, "cls": H.RF24Mesh if (k % 2 == 0) else H.RF24MeshNoMaster, "node_id": 0 if a == 0 else 40 + k, "name": "n%o" % a}
+                     for k, a in enumerate(TOPOS[topo])]
         if topo == "readdr":
             for sp in specs:
                 sp["pre_addr"] = PRE_ADDR[sp["addr"]]
@@ -66,6 +73,10 @@ def template(topo, cost, frag):
                 sp["attr_seq"] = list(NODE_ATTR_SEQ[topo])
                 sp["rebegin"] = True
         t = N.Net(specs, cost_class=cost)
+        if topo in MESH_TOPOS:
+            for a in TOPOS[topo]:
+                if a:
+                    t.nodes[a]._begin(a)
         if not frag:
             for n in t.nodes.values():
                 n.fragmentation = False
@@ -110,8 +121,13 @@ def run_unicast(case, chooser=None):
             # already names an origin - the peer ("dst") or any other address - when it is handed to send()/write()
             hdr.from_node = dst if case["hdr_from"] == "dst" else case["hdr_from"]
         buf = bytearray(msg) if case.get("buftype") == "bytearray" else msg
+        if case.get("prior"):
+            net.serve(ctx, src, 150 * MS, hook)  # (the other origin's cut-short message comes first)
+            t0 = net.w.now
         if case.get("mcast_level") is not None:
             obs["ret"] = n.multicast(buf, case["mtype"], case["mcast_level"])  # (used by C06's end-to-end part)
+        elif case["api"] == "mesh-write":
+            obs["ret"] = n.write(dst, case["mtype"], buf)
         elif case["api"] == "send":
             obs["ret"] = n.send(hdr, buf)
         else:
@@ -129,6 +145,8 @@ def run_unicast(case, chooser=None):
                 if case.get("second_gap_ms"):
                     net.serve(ctx, src, case["second_gap_ms"] * MS, hook)
                 obs["ret2"] = n.multicast(msg2, mtype2, case["mcast_level"])
+            elif case["api"] == "mesh-write":
+                obs["ret2"] = n.write(dst, mtype2, msg2)
             else:
                 obs["ret2"] = n.send(H.RF24NetworkHeader(dst, mtype2), msg2)
         bad = N.listening_violations(n, net.radios[src])
@@ -136,7 +154,19 @@ def run_unicast(case, chooser=None):
             obs["c07"].append((src, "write", tuple(bad)))
         net.serve(ctx, src, (case.get("drain", 120) + (200 if case["lat"] == 3 else 0)) * MS, hook)
 
-    net.run({src: sender}, idle_hook=hook)
+    scripts = {src: sender}
+    if case.get("prior"):
+        # history: ANOTHER node sent a fragmented message to the same destination before, and that one was cut short (case["lose"]
+        # names the frames of it - transmitted by case["lose_at"] - that never arrived); nothing of it may be delivered, and it must
+        # not stand in the way of the judged message
+        other, plen, ptype = case["prior"]
+
+        def prior_script(ctx):
+            ctx.wait(1 * MS)
+            obs["prior_ret"] = net.nodes[other].send(H.RF24NetworkHeader(dst, ptype), H.pattern(plen, case.get("seed", 0) + 7, salt=plen + 1))
+            net.serve(ctx, other, 500 * MS, hook)
+        scripts[other] = prior_script
+    net.run(scripts, idle_hook=hook)
     obs["aborted"] = net.w.aborted
     obs["exc"] = {k: type(e).__name__ + ": " + str(e)[:80] for k, e in net.exc.items()}
     obs["queues"] = net.queues()
@@ -283,6 +313,8 @@ def build_items(tier, seed):
     lengths = LENGTHS_Q if tier == "quick" else tuple(range(0, 145))
     timing = [(c, l) for c in range(4) for l in range(4)]
     for topo in TOPOS:
+        if topo in MESH_TOPOS:
+            continue  # (own API, below)
         for (s, d) in pairs(topo):
             cases = []
             for mlen in lengths:
@@ -308,6 +340,27 @@ def build_items(tier, seed):
                                       cost=k % 4, lat=(k // 4) % 4, api="send", seed=seed, id0=k & 0xFFFF))
             for i in range(0, len(cases), 12):
                 items.append((cases[i:i + 12], 0))
+    # connected mesh nodes: every pair x lengths through RF24Mesh(NoMaster).write()
+    for (s, d) in pairs("meshy"):
+        cs = []
+        for mlen in lengths if tier != "quick" else (0, 1, 24, 25, 49, 144):
+            k += 1
+            cs.append(dict(topo="meshy", src=s, dst=d, mlen=mlen, mtype=TYPES[k % len(TYPES)], frag=True, cost=k % 4, lat=(k // 4) % 3, api="mesh-write", seed=seed,
+                           id0=(k * 7919) & 0xFFFF, buftype="bytearray" if k % 2 else "bytes"))
+        for i in range(0, len(cs), 12):
+            items.append((cs[i:i + 12], 0))
+    # an earlier fragmented message of ANOTHER origin to the same destination was cut short (its last / middle+last fragments lost):
+    # the judged message (single frame / fragmented; direct neighbours, so that finding #17 does not interfere) arrives all the same
+    for topo, s_, d_, other in (("chain", O("1"), O("0"), O("5")), ("chain", O("5"), O("0"), O("1")), ("bushy", O("11"), O("1"), O("51")), ("bushy", O("0"), O("1"), O("11"))):
+        cs = []
+        for plen, lose in ((60, [2]), (60, [1, 2]), (49, [1]), (120, [2, 3, 4]), (120, [4])):
+            for mlen in (10, 30, 49, 144):
+                for (c, l) in ((0, 0), (2, 1)):
+                    k += 1
+                    cs.append(dict(topo=topo, src=s_, dst=d_, mlen=mlen, mtype=1, frag=True, cost=c, lat=l, api="send", seed=seed, id0=(k * 7919) & 0xFFFF,
+                                   prior=[other, plen, 2], lose=list(lose), lose_at=other))
+        for i in range(0, len(cs), 10):
+            items.append((cs[i:i + 10], 0))
     # two messages in a row to one destination whose application reads late (direct neighbours and
     # single-frame routed, so that finding #17 does not interfere)
     for topo, s_, d_ in (("chain", O("1"), O("0")), ("chain", O("0"), O("1")), ("bushy", O("11"), O("1")), ("mixed", O("11"), O("21"))):
@@ -343,7 +396,7 @@ def run(tier, seed, rep, only=None):
     return dict(
         level="model_checking",
         exhaustive=True,
-        rule="every ordered (src,dst) pair of 8 topologies (the documentation's network_b: own address_prefix / address_suffix applied by re-assigning the same node_address, nodes that toggled fragmentation / multicasting off and on again, chain to depth 4 with 8-hop routes, bushy, mixed routing-only/full, a tree of re-addressed nodes, nodes with ret_sys_msg on, "
+        rule="every ordered (src,dst) pair of 9 topologies (connected mesh nodes writing by address, the documentation's network_b: own address_prefix / address_suffix applied by re-assigning the same node_address, nodes that toggled fragmentation / multicasting off and on again, chain to depth 4 with 8-hop routes, bushy, mixed routing-only/full, a tree of re-addressed nodes, nodes with ret_sys_msg on, "
              "a chain whose routers have overridden multicast levels) x message "
              "lengths x fragmentation on/off x API x SPI-cost class x poll-latency class (per-run classes enumerated; per-delivery latency "
              "deviations explored exhaustively up to the stated deviation bound on 6 routes). One execution = all nodes running the real "
